@@ -903,6 +903,41 @@ func runC07(r *Run) {
 	} else {
 		r.Bad("R17", "anchor/precompiles/common.HandleGasError", "", "not found")
 	}
+	r.Rule("R18", "PATH.a-hook-panic-is-a-failed-hook: ApplyTransaction handles an *error* of the post-transaction hooks (the transaction is reverted and charged for what it used), so the keeper's hook dispatcher (PostTxProcessing) defers a handler that recovers and does not panic again — a panic of the erc20 hook (bank MintCoins overflowing on an amount read from a Transfer log) otherwise reaches baseapp after the fee deduction: gas_used 0, the whole gas limit kept")
+	if pp, ok := P.FnOK("(*x/evm/keeper.Keeper).PostTxProcessing"); ok {
+		recovers, repanics := false, false
+		for _, g := range withAnon(pp) {
+			if g == pp {
+				continue
+			}
+			has := false
+			eachInstr(g, func(in ssa.Instruction) {
+				if c, ok := in.(*ssa.Call); ok {
+					if b, ok := c.Call.Value.(*ssa.Builtin); ok && b.Name() == "recover" {
+						has = true
+					}
+				}
+			})
+			if has {
+				recovers = true
+				eachInstr(g, func(in ssa.Instruction) {
+					if _, ok := in.(*ssa.Panic); ok {
+						repanics = true
+					}
+				})
+			}
+		}
+		deferred := false
+		eachInstr(pp, func(in ssa.Instruction) {
+			if _, ok := in.(*ssa.Defer); ok {
+				deferred = true
+			}
+		})
+		r.Check(recovers && deferred && !repanics, "R18", fnID(pp)+"#hook-panics-are-recovered", P.Pos(fnPos(pp)), "a deferred closure recovers and does not panic",
+			"the hook dispatcher does not recover: a registered token's issuer mints 2^255, transfers it to the erc20 module and burns the coins twice over so that the next Transfer log makes bank MintCoins overflow — 'recovered: integer overflow', code 111222, gas_used 0, and the sender has paid 300000 × 512908936 = 153872680800000 where the identity requires gas_used × price")
+	} else {
+		r.Bad("R18", "anchor/(*Keeper).PostTxProcessing", "", "not found")
+	}
 	r.Rule("R16", "FLOW.the-multiplier-is-the-parameter + the-tx-total-is-kept-on-the-tx-context: (a) the minimum-gas multiplier that ApplyMessageWithConfig charges with is the fee market's parameter as stored — the EVM keeper's GetMinGasMultiplier has one return whose value derives from Params.MinGasMultiplier and from no constant or default (zero is a legal setting: 'no minimum'; replacing it by the default charges 50% of the gas limit on a chain configured for none); (b) ApplyTransaction adds a message's gas to the transaction's running total (AddTransientGasUsed) and resets the gas meter on the transaction's own context, never on the CacheContext branch the message ran on — that branch is dropped when the message fails, and the gas of a failed message would vanish from DeliverTx.GasUsed while its fee stays charged")
 	if gm, ok := P.FnOK("(x/evm/keeper.Keeper).GetMinGasMultiplier"); ok {
 		okRet, nRet := true, 0
